@@ -246,6 +246,11 @@ def op_lit(op):
         return 'XSetObs (%s) %d%%nat (Some %s)' % (N, op[2], q(op[3]))
     if k == 'F':
         return 'XAddFun (%s) %s' % (N, _col(op[2]))
+    if k == 'AM':
+        o = op[2]
+        code = {'SHIFT_RIGHT': 'OShift 1', 'SHIFT_LEFT': 'OShift (-1)', 'SHIFT_CIRCULAR_RIGHT': 'OShiftCirc 1', 'SHIFT_CIRCULAR_LEFT': 'OShiftCirc (-1)', 'RECTIFIER': 'ORectify'}[o] if isinstance(o, str) \
+            else ('OShift (%d)' % (o[1] if o[0] == 'SHIFT' else -o[1]))
+        return 'XAddFun (%s) (opsem (%s)%%Z %s)' % (N, code, _col(op[3]))
     return 'XExpr (%s)' % N
 
 
@@ -265,7 +270,7 @@ def coq_case(case, obs):
             # values READ under the input name just before the call
             if prev is None or op[1] not in prev['names'] or st['err'] is not None:
                 return None        # the oracle reports it
-            op = ['F', op[3] or op[1], applied(op[2], prev['cols'][prev['names'].index(op[1])]), 'add']     # written over the listed name, or created with these values
+            op = ['AM', op[3] or op[1], op[2], prev['cols'][prev['names'].index(op[1])]]     # XAddFun out (opsem <operator> <column read before>): the MODEL's operator semantics (Model/OpSem.v) is what runs
         prev = st if 'names' in st else prev
         if op[0] == 'P':
             if st['err'] is not None:
@@ -399,7 +404,7 @@ Definition ok (c : nat * list (xop * option err * list str * list (list val) * l
 def mkstream(name, with_expr, budget, rule):
     return Stream(name=name, budget=budget, rule=rule,
                   imports=('From Coq Require Import List Ascii String ZArith QArith.\nImport ListNotations.\n'
-                           'From TL Require Import Model.Str Model.Table Model.Eval Model.Pipeline Model.ExprCheck Model.History.\nOpen Scope Q_scope.\nOpen Scope string_scope.'),
+                           'From TL Require Import Model.Str Model.Table Model.Eval Model.Pipeline Model.ExprCheck Model.History Model.OpSem.\nOpen Scope Q_scope.\nOpen Scope string_scope.'),
                   case_type='nat * list (xop * option err * list str * list (list val) * list val * list val * list val)', check_def=CHECK,
                   generate=lambda rng, n, tier: [gen_history(rng, rng.randint(1, 14), with_expr) for _ in range(n)],
                   run_impl=run_impl, coq_case=coq_case, oracle=oracle, shrink=shrink,
